@@ -240,6 +240,21 @@ func (r *Runner) modelOut(op *Op, m any) any {
 // refreshNow: cases that depend on the wall clock carry "now_ns"; it is set to the current
 // time right before both sides are evaluated (also on shrinking and replay).
 func refreshNow(args map[string]any) {
+	// live stamps: "live_offsets_ms" are turned into date strings relative to the clock NOW, then
+	// "wait_ms" pass before both sides are evaluated — stamps that lay in the future when they were
+	// written (and when this process made its first expiry check) have expired when they are checked
+	if offs, ok := args["live_offsets_ms"].([]any); ok {
+		gen := time.Now().UTC()
+		ss := make([]any, len(offs))
+		for i, o := range offs {
+			ms, _ := toInt(o)
+			ss[i] = gen.Add(time.Duration(ms) * time.Millisecond).Format("2006-01-02T15:04:05Z")
+		}
+		args["strings"] = ss
+		if w, ok := toInt(args["wait_ms"]); ok && w > 0 {
+			time.Sleep(time.Duration(w) * time.Millisecond)
+		}
+	}
 	if _, ok := args["now_ns"]; ok {
 		args["now_ns"] = time.Now().UnixNano()
 	}
@@ -683,4 +698,20 @@ func doReplay(path, driver string) int {
 	}
 	fmt.Fprintln(realOut, "replay: implementation agrees with the model on this input now")
 	return 0
+}
+
+// toInt reads an integer from a JSON-ish value (int, int64, float64, json.Number).
+func toInt(v any) (int64, bool) {
+	switch x := v.(type) {
+	case int:
+		return int64(x), true
+	case int64:
+		return x, true
+	case float64:
+		return int64(x), true
+	case json.Number:
+		n, err := x.Int64()
+		return n, err == nil
+	}
+	return 0, false
 }
